@@ -1074,16 +1074,580 @@ def gen_restart(repo):
     return "\n".join(L)
 
 
+# --------------------------------------------------------------------------- transport(): kinetic time of one shift
+
+INT_TYPES = ("int", "unsigned int", "long", "unsigned long", "size_t", "bool")
+DBL_TYPES = ("double", "LDBLE", "realtype", "long double", "float")
+
+
+class CondSym:
+    """symbolic execution with conditionals of assignments to arithmetic locals / this-members.
+    values: Q-expressions  ('lit',Fraction) ('sym',name) ('neg',e) ('add|sub|mul|div',a,b) ('inj',z) ('ite',c,a,b)
+            Z-expressions  ('zlit',n) ('zsym',name) ('zadd|zsub|zmul',a,b) ('zdiv',a,n) ('zite',c,a,b)
+            conditions     ('cmp',op,a,b) ('and',a,b) ('or',a,b) ('not',a) ('bsym',name)"""
+
+    def __init__(self, src, names, opaque_cond):
+        self.src = src
+        self.names = names            # key -> emitted name, for the variables that may appear
+        self.env = {}
+        self.events = []              # (kind, payload, path-conditions)
+        self.path = []
+        self.opaque_cond = opaque_cond   # function(node) -> name or None
+
+    def key(self, n):
+        n = strip(n)
+        if n["kind"] == "DeclRefExpr" and n.get("referencedDecl", {}).get("kind") in ("VarDecl", "ParmVarDecl"):
+            return ("v", n["referencedDecl"]["id"])
+        if n["kind"] == "MemberExpr" and kids(n) and strip(kids(n)[0])["kind"] == "CXXThisExpr":
+            return ("m", n["name"])
+        return None
+
+    def ty(self, n):
+        t = n.get("type", {}).get("qualType", "")
+        if t in INT_TYPES:
+            return "Z"
+        if t in DBL_TYPES:
+            return "Q"
+        return None
+
+    def sym(self, ky, n):
+        if ky not in self.names:
+            nm = strip(n).get("referencedDecl", {}).get("name") or strip(n).get("name")
+            raise Refuse("transport(): variable %s is used in the time bookkeeping but is not part of the model" % nm)
+        return ("zsym", self.names[ky]) if self.ty(strip(n)) == "Z" else ("sym", self.names[ky])
+
+    def ev(self, n, want):
+        n0 = n
+        # look through casts, remembering int -> floating conversions
+        while n["kind"] in TRANSPARENT and len(kids(n)) == 1:
+            inner = kids(n)[0]
+            if n.get("castKind") == "IntegralToFloating" or (n["kind"] in ("CStyleCastExpr", "CXXStaticCastExpr", "CXXFunctionalCastExpr")
+                                                              and self.ty(n) == "Q" and self.ty(strip(inner)) == "Z"):
+                if want != "Q":
+                    raise Refuse("transport(): integer wanted, floating conversion found")
+                if strip(inner)["kind"] == "IntegerLiteral":
+                    return ("lit", Fraction(int(strip(inner)["value"])))
+                return ("inj", self.ev(strip(inner), "Z"))
+            n = inner
+        k = n["kind"]
+        if k == "IntegerLiteral":
+            v = int(n["value"])
+            return ("zlit", v) if want == "Z" else ("lit", Fraction(v))
+        if k == "FloatingLiteral":
+            if want != "Q":
+                raise Refuse("transport(): floating literal where an integer is wanted")
+            return ("lit", literal(n, self.src))
+        ky = self.key(n)
+        if ky is not None:
+            t = self.ty(n)
+            v = self.env.get(ky) or self.sym(ky, n)
+            if t == "Z" and want == "Q":
+                return ("inj", v)
+            if t != want:
+                raise Refuse("transport(): type mismatch in expression")
+            return v
+        if k == "UnaryOperator" and n["opcode"] == "-":
+            e = self.ev(kids(n)[0], want)
+            return ("neg", e) if want == "Q" else ("zsub", ("zlit", 0), e)
+        if k == "BinaryOperator" and n["opcode"] in ("+", "-", "*", "/"):
+            a, b = kids(n)
+            if want == "Z":
+                if n["opcode"] == "/":
+                    raise Refuse("transport(): integer division")
+                return ({"+": "zadd", "-": "zsub", "*": "zmul"}[n["opcode"]], self.ev(a, "Z"), self.ev(b, "Z"))
+            return ({"+": "add", "-": "sub", "*": "mul", "/": "div"}[n["opcode"]], self.ev(a, "Q"), self.ev(b, "Q"))
+        if k == "CallExpr" and strip(kids(n)[0]).get("referencedDecl", {}).get("name") == "floor" and want in ("Z", "Q"):
+            e = self.ev(kids(n)[1], "Q")
+            if e[0] == "div" and e[1][0] == "inj" and e[2][0] == "lit" and e[2][1].denominator == 1 and e[2][1] > 0:
+                z = ("zdiv", e[1][1], int(e[2][1]))
+                return z if want == "Z" else ("inj", z)
+        raise Refuse("transport(): expression outside subset: %s %s" % (k, n.get("opcode", "")))
+
+    def cond(self, n):
+        n = strip(n)
+        k = n["kind"]
+        nm = self.opaque_cond(n)
+        if nm:
+            return ("bsym", nm)
+        if k == "UnaryOperator" and n["opcode"] == "!":
+            return ("not", self.cond(kids(n)[0]))
+        if k == "BinaryOperator" and n["opcode"] in ("&&", "||"):
+            a, b = kids(n)
+            return ("and" if n["opcode"] == "&&" else "or", self.cond(a), self.cond(b))
+        if k == "BinaryOperator" and n["opcode"] in ("==", "!=", "<", ">", "<=", ">="):
+            a, b = kids(n)
+            ta, tb = self.ty(strip(a)) or self.ty(a), self.ty(strip(b)) or self.ty(b)
+            if ta == "Z" and tb == "Z":
+                return ("cmp", n["opcode"], self.ev(a, "Z"), self.ev(b, "Z"))
+            raise Refuse("transport(): comparison of non-integers in a guard of the time bookkeeping")
+        ky = self.key(n)
+        if ky is not None and self.ty(n) == "Z":
+            return ("cmp", "!=", self.ev(n, "Z"), ("zlit", 0))
+        raise Refuse("transport(): condition outside subset: %s %s" % (k, n.get("opcode", "")))
+
+    def assigned_keys(self, st):
+        out = set()
+        for a in find_all(st, lambda x: x["kind"] in ("BinaryOperator", "CompoundAssignOperator", "UnaryOperator")):
+            if a["kind"] == "BinaryOperator" and a.get("opcode") != "=":
+                continue
+            if a["kind"] == "UnaryOperator" and a.get("opcode") not in ("++", "--"):
+                continue
+            ky = self.key(kids(a)[0])
+            if ky is not None:
+                out.add(ky)
+        return out
+
+    def run(self, st, tracked, on_call=None, stop=None):
+        """execute st; only assignments to `tracked` keys matter.  Returns True when `stop` was reached."""
+        if stop is not None and st is stop:
+            return True
+        s0 = st
+        while s0["kind"] in TRANSPARENT and len(kids(s0)) == 1:
+            s0 = kids(s0)[0]
+        k = s0["kind"]
+        if k in ("CompoundStmt", "LabelStmt"):
+            for c in kids(s0):
+                if self.run(c, tracked, on_call, stop):
+                    return True
+            return False
+        if k == "IfStmt":
+            ks = kids(s0)
+            touches = self.assigned_keys(s0) & tracked
+            has_call = on_call is not None and find_all(s0, lambda x: x["kind"] == "CXXMemberCallExpr" and kids(x) and kids(x)[0].get("name") == "run_reactions")
+            if stop is not None and find_all(s0, lambda x: x is stop):
+                raise Refuse("transport(): the statement looked for is inside a conditional")
+            if not touches and not has_call:
+                return False
+            c = self.cond(ks[0])
+            base = dict(self.env)
+            self.path.append(c)
+            self.run(ks[1], tracked, on_call)
+            self.path.pop()
+            env_t = self.env
+            self.env = dict(base)
+            if len(ks) > 2:
+                self.path.append(("not", c))
+                self.run(ks[2], tracked, on_call)
+                self.path.pop()
+            env_e = self.env
+            merged = dict(base)
+            for ky in set(env_t) | set(env_e):
+                a, b = env_t.get(ky), env_e.get(ky)
+                if a == b:
+                    if a is not None:
+                        merged[ky] = a
+                    continue
+                dflt = ("zsym" if ky in self.ztracked else "sym", self.names.get(ky, "?"))
+                a = a if a is not None else dflt
+                b = b if b is not None else dflt
+                merged[ky] = ("zite" if ky in self.ztracked else "ite", c, a, b)
+            self.env = merged
+            return False
+        if k in ("BinaryOperator", "CompoundAssignOperator") and s0.get("opcode") in ("=", "+=", "-=", "*=", "/="):
+            lhs, rhs = kids(s0)
+            ky = self.key(lhs)
+            if ky in tracked:
+                t = "Z" if ky in self.ztracked else "Q"
+                r = strip(rhs)
+                if r["kind"] in ("CallExpr", "CXXMemberCallExpr") and not (r["kind"] == "CallExpr" and strip(kids(r)[0]).get("referencedDecl", {}).get("name") == "floor"):
+                    e = ("zsym" if t == "Z" else "sym", self.names[ky])      # result of a call: the variable stands for itself
+                elif r["kind"] == "BinaryOperator" and r.get("opcode") == "=":
+                    raise Refuse("transport(): chained assignment in the time bookkeeping")
+                else:
+                    e = self.ev(rhs, t)
+                if s0["opcode"] != "=":
+                    cur = self.env.get(ky) or (("zsym" if t == "Z" else "sym"), self.names[ky])
+                    pre = "z" if t == "Z" else ""
+                    if t == "Z" and s0["opcode"] == "/=":
+                        raise Refuse("transport(): integer division")
+                    e = (pre + {"+=": "add", "-=": "sub", "*=": "mul", "/=": "div"}[s0["opcode"]], cur, e)
+                self.env[ky] = e
+            return False
+        if k == "CXXMemberCallExpr" and kids(s0) and kids(s0)[0].get("name") == "run_reactions" and on_call is not None:
+            on_call(self, kids(s0)[1:])
+            return False
+        # anything else (loops, calls, declarations): must not assign what is tracked
+        bad = self.assigned_keys(s0) & tracked
+        if bad:
+            raise Refuse("transport(): %s assigns a variable of the time bookkeeping (%s)" % (k, ", ".join(self.names.get(b, "?") for b in bad)))
+        return False
+
+
+def tz(e):
+    t = e[0]
+    if t == "zlit":
+        return "(%d)%%Z" % e[1]
+    if t == "zsym":
+        return e[1]
+    if t in ("zadd", "zsub", "zmul"):
+        return "(%s %s %s)%%Z" % (tz(e[1]), {"zadd": "+", "zsub": "-", "zmul": "*"}[t], tz(e[2]))
+    if t == "zdiv":
+        return "(%s / %d)%%Z" % (tz(e[1]), e[2])
+    if t == "zite":
+        return "(if %s then %s else %s)" % (tc(e[1]), tz(e[2]), tz(e[3]))
+    raise Refuse("cannot emit integer expression " + t)
+
+
+def tq(e):
+    t = e[0]
+    if t == "lit":
+        return qlit(e[1])
+    if t == "sym":
+        return e[1]
+    if t == "neg":
+        return "(- %s)" % tq(e[1])
+    if t in ("add", "sub", "mul", "div"):
+        return "(%s %s %s)" % (tq(e[1]), {"add": "+", "sub": "-", "mul": "*", "div": "/"}[t], tq(e[2]))
+    if t == "inj":
+        return "(inject_Z %s)" % tz(e[1])
+    if t == "ite":
+        return "(if %s then %s else %s)" % (tc(e[1]), tq(e[2]), tq(e[3]))
+    raise Refuse("cannot emit expression " + t)
+
+
+def tc(c):
+    t = c[0]
+    if t == "bsym":
+        return c[1]
+    if t == "not":
+        return "(negb %s)" % tc(c[1])
+    if t in ("and", "or"):
+        return "(%s %s %s)" % ("andb" if t == "and" else "orb", tc(c[1]), tc(c[2]))
+    if t == "cmp":
+        a, b = tz(c[2]), tz(c[3])
+        return {"==": "(Z.eqb %s %s)" % (a, b), "!=": "(negb (Z.eqb %s %s))" % (a, b), "<": "(Z.ltb %s %s)" % (a, b), ">": "(Z.ltb %s %s)" % (b, a),
+                "<=": "(Z.leb %s %s)" % (a, b), ">=": "(Z.leb %s %s)" % (b, a)}[c[1]]
+    raise Refuse("cannot emit condition " + t)
+
+
+def conj(cs):
+    if not cs:
+        return "true"
+    out = tc(cs[0])
+    for c in cs[1:]:
+        out = "(andb %s %s)" % (out, tc(c))
+    return out
+
+
+def gen_transport_time(repo):
+    """kin_time bookkeeping of Phreeqc::transport(): which time every run_reactions call of one transport step hands to which cell"""
+    objs, src = ast_dump(repo, "src/phreeqcpp/transport.cpp", "transport")
+    fns = [o for o in objs if o.get("kind") == "CXXMethodDecl" and o.get("name") == "transport" and any(c.get("kind") == "CompoundStmt" for c in o.get("inner", []))]
+    if len(fns) != 1:
+        raise Refuse("definition of Phreeqc::transport not found")
+    fn = fns[0]
+    body = [c for c in kids(fn) if c["kind"] == "CompoundStmt"][0]
+
+    def rr_calls(n):
+        return find_all(n, lambda x: x["kind"] == "CXXMemberCallExpr" and kids(x) and kids(x)[0].get("name") == "run_reactions")
+
+    calls = rr_calls(body)
+    if not calls:
+        raise Refuse("transport(): no run_reactions call")
+    kts = set()
+    for c in calls:
+        a = strip(kids(c)[2])
+        if a["kind"] != "DeclRefExpr":
+            raise Refuse("transport(): run_reactions time argument is not a local variable")
+        kts.add(a["referencedDecl"]["id"])
+    if len(kts) != 1:
+        raise Refuse("transport(): run_reactions is called with different time variables")
+    kt = ("v", kts.pop())
+    # save variable: local X with statements  X = kt  and  kt = X
+    saves = set()
+    for a in find_all(body, lambda x: x["kind"] == "BinaryOperator" and x.get("opcode") == "="):
+        l, r = strip(kids(a)[0]), strip(kids(a)[1])
+        if l["kind"] == "DeclRefExpr" and r["kind"] == "DeclRefExpr" and ("v", r["referencedDecl"]["id"]) == kt:
+            saves.add((l["referencedDecl"]["id"], a["id"]))
+    if len(saves) != 1:
+        raise Refuse("transport(): expected exactly one statement saving the kinetic time step")
+    save_id, save_stmt_id = saves.pop()
+    save = ("v", save_id)
+
+    def for_parts(f):
+        inner = f.get("inner", [])
+        if len(inner) != 5:
+            raise Refuse("transport(): unexpected for statement")
+        return inner[0], inner[2], inner[3], inner[4]      # init, cond, inc, body
+
+    def loop_var(f):
+        init, cond, inc, b = for_parts(f)
+        c = strip(cond) if "kind" in cond else None
+        if c is None or c["kind"] != "BinaryOperator" or c.get("opcode") != "<=":
+            return None
+        l = strip(kids(c)[0])
+        return ("v", l["referencedDecl"]["id"]) if l["kind"] == "DeclRefExpr" else None
+
+    fors = find_all(body, lambda x: x["kind"] == "ForStmt")
+    with_calls = [f for f in fors if rr_calls(f)]
+    # outermost loop containing calls = loop over transport steps
+    step_loops = [f for f in with_calls if not any(g is not f and find_all(g, lambda x: x is f) for g in with_calls)]
+    if len(step_loops) != 1:
+        raise Refuse("transport(): could not identify the loop over transport steps")
+    step_loop = step_loops[0]
+    # loop over cells in the advective part: a for loop that has a call AND assigns the time variable
+    adv = [f for f in with_calls if f is not step_loop and any(
+        x["kind"] in ("BinaryOperator", "CompoundAssignOperator") and x.get("opcode") in ("=", "/=", "*=", "+=", "-=") and
+        strip(kids(x)[0]).get("referencedDecl", {}).get("id") == kt[1] for x in find_all(f, lambda y: y["kind"] in ("BinaryOperator", "CompoundAssignOperator")))
+        and not any(g is not f and g is not step_loop and find_all(g, lambda x: x is f) for g in with_calls)]
+    if len(adv) != 1:
+        raise Refuse("transport(): could not identify the loop over cells of the advective part (%d candidates)" % len(adv))
+    adv_loop = adv[0]
+    iv = loop_var(adv_loop)
+    if iv is None:
+        raise Refuse("transport(): advective cell loop has no  <cell> <= <count>  condition")
+
+    # block holding the advective loop
+    def parent_block(n, target):
+        for c in kids(n):
+            if c is target:
+                return n
+            r = parent_block(c, target)
+            if r:
+                return r
+        return None
+    blk = parent_block(step_loop, adv_loop)
+    if blk["kind"] != "CompoundStmt":
+        raise Refuse("transport(): advective cell loop is not a statement of a block")
+
+    # guard of the advective part: the if statement whose branch is that block
+    adv_ifs = [x for x in find_all(for_parts(step_loop)[3], lambda y: y["kind"] == "IfStmt" and len(kids(y)) >= 2 and kids(y)[1] is blk)]
+    if len(adv_ifs) != 1:
+        raise Refuse("transport(): the advective part is not the branch of one if statement")
+    adv_if = adv_ifs[0]
+    # the cell handed to the call made before the shift (inflow cell) gives the role "first_c"
+    pre_calls = []
+    for st in kids(blk):
+        if st is adv_loop:
+            break
+        pre_calls += rr_calls(st)
+    if len(pre_calls) != 1:
+        raise Refuse("transport(): expected one run_reactions call before the cell loop of the advective part, found %d" % len(pre_calls))
+    fc_n = strip(kids(pre_calls[0])[1])
+    if fc_n["kind"] != "DeclRefExpr":
+        raise Refuse("transport(): inflow cell is not a local variable")
+    fc = ("v", fc_n["referencedDecl"]["id"])
+
+    # mixing loops: other loops inside the step loop whose body holds a loop with calls
+    mix = [f for f in with_calls if f is not step_loop and f is not adv_loop and find_all(for_parts(f)[3], lambda x: x["kind"] == "ForStmt" and rr_calls(x))
+           and not any(g is not f and g is not step_loop and find_all(g, lambda x: x is f) for g in with_calls)]
+    if len(mix) != 2:
+        raise Refuse("transport(): expected two dispersive-mixing loops around run_reactions, found %d" % len(mix))
+    jv = loop_var(mix[0])
+    if jv is None or loop_var(mix[1]) != jv:
+        raise Refuse("transport(): the two mixing loops do not share their counter")
+    for m_ in mix:
+        if any(strip(kids(x)[0]).get("referencedDecl", {}).get("id") == kt[1] for x in find_all(m_, lambda y: y["kind"] in ("BinaryOperator", "CompoundAssignOperator") and y.get("opcode") in ("=", "/=", "*=", "+=", "-="))):
+            raise Refuse("transport(): the kinetic time step is changed inside a mixing loop")
+        for c in rr_calls(m_):
+            pass
+
+    # b_c: the local compared in the guard of the first mixing loop
+    def enclosing_ifs(root, target, acc):
+        for c in kids(root):
+            if c is target:
+                return acc
+            if find_all(c, lambda x: x is target):
+                return enclosing_ifs(c, target, acc + ([c] if c["kind"] == "IfStmt" else []))
+        return None
+    ifs1 = enclosing_ifs(for_parts(step_loop)[3], mix[0], [])
+    ifs2 = enclosing_ifs(for_parts(step_loop)[3], mix[1], [])
+    if ifs1 is None or len(ifs1) != 1 or ifs2 is None or ifs2:
+        raise Refuse("transport(): unexpected nesting of the mixing loops")
+    g1 = strip(kids(ifs1[0])[0])
+    if g1["kind"] != "BinaryOperator" or strip(kids(g1)[0])["kind"] != "DeclRefExpr":
+        raise Refuse("transport(): guard of the first mixing loop is not a comparison of a local")
+    bc = ("v", strip(kids(g1)[0])["referencedDecl"]["id"])
+
+    names = {kt: "kt", save: "save", fc: "first_c", iv: "i", jv: "j", bc: "b_c",
+             ("m", "ishift"): "ishift", ("m", "nmix"): "nmix", ("m", "timest"): "timest", ("m", "count_cells"): "cells",
+             ("m", "bcon_first"): "bcon_first", ("m", "bcon_last"): "bcon_last"}
+    # stagkin_time-like helpers: any other double local assigned before the save statement is tracked and must resolve to the symbols above
+    setup_blk = parent_block(body, [a for a in find_all(body, lambda x: x.get("id") == save_stmt_id)][0])
+    while setup_blk is not None and setup_blk["kind"] != "CompoundStmt":
+        setup_blk = parent_block(body, setup_blk)
+    if setup_blk is None or not find_all(setup_blk, lambda x: x is step_loop):
+        raise Refuse("transport(): the kinetic time step is not set in the block that holds the step loop")
+
+    def opaque(n):
+        # Rxn_find(Rxn_kinetics_map, X) != NULL   ->  has_kin
+        if n["kind"] == "BinaryOperator" and n.get("opcode") in ("!=", "=="):
+            txt = json.dumps(n)
+            if "Rxn_find" in txt and "Rxn_kinetics_map" in txt:
+                return "has_kin" if n["opcode"] == "!=" else None
+        return None
+
+    # helper locals (stagkin_time ...): floating locals the kinetic time step is computed from, transitively
+    helper_locals = {}
+    changed = True
+    while changed:
+        changed = False
+        want = {kt, save} | set(helper_locals)
+        for a in find_all(setup_blk, lambda x: x["kind"] in ("BinaryOperator", "CompoundAssignOperator") and x.get("opcode") in ("=", "+=", "-=", "*=", "/=")):
+            if find_all(step_loop, lambda x: x is a):
+                continue
+            l = strip(kids(a)[0])
+            if l["kind"] == "DeclRefExpr" and ("v", l["referencedDecl"]["id"]) in want:
+                for r in find_all(kids(a)[1], lambda x: x["kind"] == "DeclRefExpr" and x.get("type", {}).get("qualType") in DBL_TYPES
+                                  and x.get("referencedDecl", {}).get("kind") == "VarDecl"):
+                    ky = ("v", r["referencedDecl"]["id"])
+                    if ky not in names and ky not in helper_locals:
+                        helper_locals[ky] = "h_" + r["referencedDecl"]["name"]
+                        changed = True
+
+    # ---- phase 1: from the start of the block to the step loop: kt, save, first_c, b_c as functions of ishift nmix timest cells bcon_*
+    ex = CondSym(src, {**names, **helper_locals}, opaque)
+    ex.ztracked = {fc, bc, jv, iv, ("m", "nmix"), ("m", "ishift"), ("m", "count_cells")}
+    tracked1 = {kt, save, fc, bc} | set(helper_locals)
+    ex.run(setup_blk, tracked1, stop=step_loop)
+    def closed(e, allowed):
+        if e[0] in ("sym", "zsym"):
+            if e[1] not in allowed:
+                raise Refuse("transport(): the time bookkeeping depends on %s" % e[1])
+        for x in e[1:]:
+            if isinstance(x, tuple):
+                closed(x, allowed)
+    kt0 = ex.env.get(kt)
+    sv0 = ex.env.get(save)
+    fc0 = ex.env.get(fc)
+    bc0 = ex.env.get(bc)
+    if None in (kt0, sv0, fc0, bc0):
+        raise Refuse("transport(): kinetic time step, its copy, the inflow cell or the boundary switch is not set before the step loop")
+    closed(kt0, {"ishift", "nmix", "timest"}); closed(sv0, {"ishift", "nmix", "timest"})
+    closed(fc0, {"ishift", "cells"}); closed(bc0, {"ishift", "bcon_first", "bcon_last"})
+
+    # ---- phase 2: the advective block, statements before the cell loop
+    ex2 = CondSym(src, names, opaque)
+    ex2.ztracked = ex.ztracked
+    pre_ev = []
+    def on_pre(e, args):
+        pre_ev.append((e.ev(args[0], "Z"), e.ev(args[1], "Q"), list(e.path)))
+    for st in kids(blk):
+        if st is adv_loop:
+            break
+        ex2.run(st, {kt}, on_call=on_pre)
+    if len(pre_ev) != 1:
+        raise Refuse("transport(): pre-shift half step not recognised")
+    pre_cell, pre_time, pre_path = pre_ev[0]
+    pre_next = ex2.env.get(kt, ("sym", "kt"))
+    closed(pre_time, {"kt", "save"}); closed(pre_next, {"kt", "save", "has_kin", "cells"}); closed(pre_cell, {"first_c"})
+
+    # ---- phase 3: one pass through the cell loop
+    init, cnd, inc, lbody = for_parts(adv_loop)
+    ex3 = CondSym(src, names, opaque)
+    ex3.ztracked = ex.ztracked
+    i0 = strip(init)
+    if i0.get("kind") != "BinaryOperator" or i0.get("opcode") != "=" or ex3.key(kids(i0)[0]) != iv:
+        raise Refuse("transport(): advective cell loop does not start with  <cell> = <first>")
+    loop_first = ex3.ev(kids(i0)[1], "Z")
+    loop_last = ex3.ev(kids(strip(cnd))[1], "Z")
+    inc0 = strip(inc)
+    if inc0.get("kind") != "UnaryOperator" or inc0.get("opcode") != "++" or ex3.key(kids(inc0)[0]) != iv:
+        raise Refuse("transport(): advective cell loop does not advance by one")
+    loop_ev = []
+    def on_loop(e, args):
+        loop_ev.append((e.ev(args[0], "Z"), e.ev(args[1], "Q"), list(e.path)))
+    ex3.run(lbody, {kt}, on_call=on_loop)
+    if len(loop_ev) != 1 or loop_ev[0][2] or loop_ev[0][0] != ("zsym", "i"):
+        raise Refuse("transport(): the cell loop of the advective part does not call run_reactions exactly once, unconditionally, for its own cell")
+    loop_time = loop_ev[0][1]
+    loop_next = ex3.env.get(kt, ("sym", "kt"))
+    closed(loop_time, {"kt", "save", "i", "first_c", "cells"}); closed(loop_next, {"kt", "save", "i", "first_c", "cells"})
+    closed(loop_first, set()); closed(loop_last, {"cells"})
+
+    # ---- phase 4: the mixing loops
+    ex4 = CondSym(src, names, opaque)
+    ex4.ztracked = ex.ztracked
+    i1, c1, n1, _ = for_parts(mix[0])
+    i1s = strip(i1)
+    if i1s.get("kind") != "BinaryOperator" or i1s.get("opcode") != "=" or ex4.key(kids(i1s)[0]) != jv:
+        raise Refuse("transport(): first mixing loop does not initialise its counter")
+    mix1_first = ex4.ev(kids(i1s)[1], "Z")
+    mix1_last = ex4.ev(kids(strip(c1))[1], "Z")
+    mix1_guard = ex4.cond(kids(ifs1[0])[0])
+    i2, c2, n2, _ = for_parts(mix[1])
+    if "kind" in i2:
+        raise Refuse("transport(): second mixing loop re-initialises its counter")
+    mix2_last = ex4.ev(kids(strip(c2))[1], "Z")
+    for nn in (n1, n2):
+        s_ = strip(nn)
+        if s_.get("kind") != "UnaryOperator" or s_.get("opcode") != "++" or ex4.key(kids(s_)[0]) != jv:
+            raise Refuse("transport(): a mixing loop does not advance by one")
+    # the conditional reset of the counter between the loops: statements of the step-loop body that assign j outside the two loops
+    resets = []
+    for st in kids(for_parts(step_loop)[3]):
+        if find_all(st, lambda x: x is mix[0]) or st is mix[1]:
+            continue
+        for a in find_all(st, lambda x: x["kind"] in ("BinaryOperator", "CompoundAssignOperator", "UnaryOperator")):
+            if (a["kind"] == "BinaryOperator" and a.get("opcode") == "=") or a["kind"] == "CompoundAssignOperator" or (a["kind"] == "UnaryOperator" and a.get("opcode") in ("++", "--")):
+                if ex4.key(kids(a)[0]) == jv and not find_all(a, lambda x: x["kind"] == "ForStmt"):
+                    inloop = [f for f in find_all(st, lambda x: x["kind"] == "ForStmt") if find_all(f, lambda x: x is a) and loop_var(f) == jv]
+                    if not inloop:
+                        resets.append((st, a))
+    if len(resets) != 1 or strip(resets[0][0])["kind"] != "IfStmt" or len(kids(strip(resets[0][0]))) != 2:
+        raise Refuse("transport(): expected exactly one conditional reset of the mixing counter between the two loops, found %d" % len(resets))
+    rst_if = strip(resets[0][0])
+    mix2_reset_guard = ex4.cond(kids(rst_if)[0])
+    ra = resets[0][1]
+    if ra["kind"] != "BinaryOperator":
+        raise Refuse("transport(): reset of the mixing counter is not an assignment")
+    mix2_reset_value = ex4.ev(kids(ra)[1], "Z")
+    # order: reset must come after the first loop and before the second
+    order = [st for st in kids(for_parts(step_loop)[3])]
+    idx1 = [k for k, st in enumerate(order) if find_all(st, lambda x: x is mix[0])][0]
+    idxr = order.index(resets[0][0])
+    idx2 = order.index(mix[1])
+    idxa = [k for k, st in enumerate(order) if find_all(st, lambda x: x is adv_loop)][0]
+    if not (idx1 < idxa < idxr < idx2):
+        raise Refuse("transport(): order of first mixing loop / advective part / counter reset / second mixing loop changed")
+    for e_, al in ((mix1_first, set()), (mix1_last, {"nmix"}), (mix2_last, {"nmix"}), (mix2_reset_value, set())):
+        closed(e_, al)
+
+    L = ["(* GENERATED by translator/c12_gen.py from src/phreeqcpp/transport.cpp : Phreeqc::transport (kinetic time of one transport step).  Do not edit. *)",
+         "Require Import QArith ZArith Bool.", "Open Scope Q_scope.", "",
+         "(* set before the loop over transport steps *)",
+         "Definition g_tr_kin_time (ishift nmix : Z) (timest : Q) : Q := %s." % tq(kt0),
+         "Definition g_tr_kin_time_save (ishift nmix : Z) (timest : Q) : Q := %s." % tq(sv0),
+         "Definition g_tr_first_c (ishift cells : Z) : Z := %s." % tz(fc0),
+         "Definition g_tr_b_c (ishift bcon_first bcon_last : Z) : Z := %s." % tz(bc0),
+         "", "(* the advective part is executed when *)",
+         "Definition g_tr_adv_guard (ishift : Z) : bool := %s." % tc(ex.cond(kids(adv_if)[0])),
+         "", "(* advective part, before the shift: run_reactions(g_tr_pre_cell, g_tr_pre_time, ..) under g_tr_pre_cond; kt afterwards *)",
+         "Definition g_tr_pre_cond (has_kin : bool) (cells : Z) : bool := %s." % conj(pre_path),
+         "Definition g_tr_pre_cell (first_c : Z) : Z := %s." % tz(pre_cell),
+         "Definition g_tr_pre_time (kt save : Q) : Q := %s." % tq(pre_time),
+         "Definition g_tr_pre_next (has_kin : bool) (cells : Z) (kt save : Q) : Q := %s." % tq(pre_next),
+         "", "(* advective part, after the shift: for i = g_tr_loop_first .. g_tr_loop_last: run_reactions(i, g_tr_loop_time, ..); kt afterwards *)",
+         "Definition g_tr_loop_first : Z := %s." % tz(loop_first),
+         "Definition g_tr_loop_last (cells : Z) : Z := %s." % tz(loop_last),
+         "Definition g_tr_loop_time (i first_c cells : Z) (kt save : Q) : Q := %s." % tq(loop_time),
+         "Definition g_tr_loop_next (i first_c cells : Z) (kt save : Q) : Q := %s." % tq(loop_next),
+         "", "(* dispersive mixing runs, every one calling run_reactions(cell, kt, ..) for every cell:",
+         "   if g_tr_mix1_guard: for (j = g_tr_mix1_first; j <= g_tr_mix1_last; j++);  [advective part];",
+         "   if g_tr_mix2_reset_guard: j = g_tr_mix2_reset_value;  for (; j <= g_tr_mix2_last; j++) *)",
+         "Definition g_tr_mix1_guard (b_c : Z) : bool := %s." % tc(mix1_guard),
+         "Definition g_tr_mix1_first : Z := %s." % tz(mix1_first),
+         "Definition g_tr_mix1_last (nmix : Z) : Z := %s." % tz(mix1_last),
+         "Definition g_tr_mix2_reset_guard (b_c : Z) : bool := %s." % tc(mix2_reset_guard),
+         "Definition g_tr_mix2_reset_value : Z := %s." % tz(mix2_reset_value),
+         "Definition g_tr_mix2_last (nmix : Z) : Z := %s." % tz(mix2_last),
+         ""]
+    return "\n".join(L)
+
+
 def main():
     repo = sys.argv[1] if len(sys.argv) > 1 else "/repo"
     outd = sys.argv[2] if len(sys.argv) > 2 else None
     t = gen_tableau(repo)
     s = gen_step(repo)
     r = gen_restart(repo)
+    tt = gen_transport_time(repo)
     if outd:
         open(os.path.join(outd, "Gen_C12_Restart.v"), "w").write(r)
+        open(os.path.join(outd, "Gen_C12_Transport.v"), "w").write(tt)
     else:
         sys.stdout.write(r)
+        sys.stdout.write(tt)
     if outd:
         open(os.path.join(outd, "Gen_C12_Tableau.v"), "w").write(t)
         open(os.path.join(outd, "Gen_C12_Step.v"), "w").write(s)
